@@ -14,11 +14,14 @@
         hmac_equals_rfc2104
    everything together, for every history of update/finalize/reset/hash/hmac:
         step_refines_spec, history_refines_spec, reachable_states_invariant
+   the tie of finalize()'s length field to the code (white-box op `setcount` of the harness; not a clause of the
+   property, but what that correspondence means for EVERY counter value and every internal state):
+        finalize_from_any_state, finalize_after_set_count, update_finalize_from_any_state
    The only side conditions are: bytes are in 0..255 (wf_bytes) and whatever is finalized is shorter
    than max_len = 2^61 bytes (op_ok / ops_ok); Inv p m reads "hasher p has absorbed message m". *)
 From Coq Require Import ZArith List.
 From Common Require Import Words ListAux.
-From Sha Require Import Gen_Sha ShaSpec ShaModel ShaProofs ShaRound ShaCompress ShaStream ShaFinal ShaHmac.
+From Sha Require Import Gen_Sha ShaSpec ShaModel ShaProofs ShaRound ShaCompress ShaStream ShaFinal ShaAnyState ShaHmac.
 Import ListNotations.
 Local Open Scope Z_scope.
 
@@ -82,6 +85,45 @@ Theorem reachable_states_invariant : forall ops, ops_ok [] ops ->
   Inv (fold_left (fun p o => fst (step p o)) ops init) (fold_left (fun m o => fst (spec_step m o)) ops []).
 Proof. exact (fun ops => run_inv ops init [] init_inv). Qed.
 Print Assumptions reachable_states_invariant.
+
+(* finalize from ANY internal state (8 state words, any 64-bit counter value c, any 64-byte buffer): the digest is the
+   compression chain, from the given state, over the first c mod 64 buffer bytes + 0x80 + the FIPS 5.1.1 zero fill + the
+   eight big-endian bytes of 8c mod 2^64.  The correspondence harness sets the private counter of the real class to
+   chosen values (2^29 ... 2^64) and compares finalize() with this function: all eight bytes of the length field. *)
+Theorem finalize_from_any_state : forall st c buf, is8 st -> length buf = 64%nat -> 0 <= c < 18446744073709551616 ->
+  wf_bytes (firstn (Z.to_nat (c mod 64)) buf) = true ->
+  exists p', finalize {| state := st; count := c; buffer := buf |}
+             = Some (flat_map (be_bytes 4)
+                       (absorb_from st (firstn (Z.to_nat (c mod 64)) buf ++ [128]
+                                          ++ repeat 0 (pad_zeros (Z.to_nat (c mod 64)))
+                                          ++ be_bytes 8 ((8 * c) mod 18446744073709551616))), p')
+             /\ Inv p' [].
+Proof. exact finalize_any_state. Qed.
+Print Assumptions finalize_from_any_state.
+
+(* ... and with one more update() in between (the counter is carried across 2^29, 2^32, ... by the code's own increment):
+   from any internal state, update d then finalize = the chain over buffered bytes ++ d ++ padding with 8 (c + |d|) mod 2^64 *)
+Theorem update_finalize_from_any_state : forall st c buf d, is8 st -> length buf = 64%nat -> 0 <= c < 18446744073709551616 ->
+  wf_bytes (firstn (Z.to_nat (c mod 64)) buf) = true -> wf_bytes d = true ->
+  exists p', finalize (update {| state := st; count := c; buffer := buf |} d)
+             = Some (flat_map (be_bytes 4)
+                       (absorb_from st ((firstn (Z.to_nat (c mod 64)) buf ++ d) ++ [128]
+                                          ++ repeat 0 (pad_zeros (length (firstn (Z.to_nat (c mod 64)) buf ++ d) mod 64))
+                                          ++ be_bytes 8 ((8 * (c + Z.of_nat (length d))) mod 18446744073709551616))), p')
+             /\ Inv p' [].
+Proof. exact update_finalize_any_state. Qed.
+Print Assumptions update_finalize_from_any_state.
+
+(* the white-box op itself: a hasher that absorbed full ++ rest (whole blocks ++ buffered bytes), counter overwritten by c *)
+Theorem finalize_after_set_count : forall p full rest c, InvS p full rest -> 0 <= c < 18446744073709551616 ->
+  c mod 64 = Z.of_nat (length rest) ->
+  exists p', finalize (set_count p c)
+             = Some (flat_map (be_bytes 4)
+                       (absorb_from (absorb full) (rest ++ [128] ++ repeat 0 (pad_zeros (length rest))
+                                                    ++ be_bytes 8 ((8 * c) mod 18446744073709551616))), p')
+             /\ Inv p' [].
+Proof. exact ShaFinal.finalize_after_set_count. Qed.
+Print Assumptions finalize_after_set_count.
 
 (* ---- non-vacuity and known answers -------------------------------------------------------------- *)
 (* the transcription of the standard gives the published values: FIPS 180-2 B.1 "abc" ... *)
@@ -150,6 +192,39 @@ Example ex_length_field :
   let p := {| state := gen_H0; count := 0x0123456789abcd; buffer := repeat 0 64 |} in
   skipn 56 (buffer (len_bytes 8 (w64 (Z.shiftl (count p) 3)) p 56)) = [0x00; 0x09; 0x1a; 0x2b; 0x3c; 0x4d; 0x5e; 0x68].
 Proof. vm_compute. reflexivity. Qed.
+
+(* finalize from a counter value whose bit length has all eight bytes non-zero (8c = 0x091a2b3c4d5e6e18; "abc" buffered),
+   and from one beyond 2^61 with 56 bytes buffered (two padding blocks; 8c mod 2^64 = 0xf6e5d4c3b2a1dfc0): the expected
+   digests were computed with an independent pure-python FIPS 180-4 compression function *)
+Example kat_model_any_state_abc :
+  is8 gen_H0 /\ 0x0123456789abcdc3 mod 64 = 3 /\
+  option_map fst (finalize {| state := gen_H0; count := 0x0123456789abcdc3; buffer := [97; 98; 99] ++ repeat 0 61 |}) = Some
+  [35; 129; 34; 126; 239; 170; 73; 147; 47; 67; 128; 169; 238; 129; 239; 7;
+   131; 204; 148; 191; 86; 26; 99; 168; 173; 200; 159; 170; 108; 91; 196; 115].
+Proof. split; [ rewrite gen_H0_is_fips; exact H0_is8 | split; vm_compute; reflexivity ]. Qed.
+Example kat_model_any_state_two_blocks :
+  option_map fst (finalize (set_count (update init (map Z.of_nat (seq 1 56))) 0xfedcba9876543bf8)) = Some
+  [4; 101; 43; 86; 183; 194; 106; 239; 46; 111; 191; 157; 133; 190; 53; 206;
+   39; 127; 138; 185; 172; 78; 5; 46; 0; 108; 89; 176; 195; 59; 200; 50]
+  /\ InvS (update init (map Z.of_nat (seq 1 56))) [] (map Z.of_nat (seq 1 56)) /\ 0xfedcba9876543bf8 mod 64 = 56.
+Proof.
+  split; [ vm_compute; reflexivity | split; [ | vm_compute; reflexivity ] ].
+  unfold InvS.
+  split; [ vm_compute; reflexivity | ]. split; [ vm_compute; reflexivity | ].
+  split; [ vm_compute; reflexivity | ]. split; [ exists 0%nat; vm_compute; reflexivity | ].
+  split; [ vm_compute; repeat apply le_n_S; apply Nat.le_0_l | ].
+  split; vm_compute; reflexivity.
+Qed.
+
+(* counter 2^32 - 16 with 48 bytes buffered, then update() with 100 bytes (the counter crosses 2^32, two blocks are
+   compressed on the way), then finalize: bit length 0x8000002a0; expected digest from the same python reference *)
+Example kat_model_update_across_2_32 :
+  option_map fst (finalize (update {| state := gen_H0; count := 4294967280; buffer := map Z.of_nat (seq 1 48) ++ repeat 0 16 |}
+                                   (map (fun i => (Z.of_nat i * 3 + 1) mod 256) (seq 0 100)))) = Some
+  [174; 243; 118; 73; 99; 186; 164; 11; 56; 250; 179; 171; 92; 13; 158; 9;
+   135; 83; 114; 62; 225; 75; 92; 81; 241; 23; 238; 244; 236; 225; 39; 211]
+  /\ wf_bytes (map (fun i => (Z.of_nat i * 3 + 1) mod 256) (seq 0 100)) = true /\ 4294967280 mod 64 = 48.
+Proof. split; [ | split ]; vm_compute; reflexivity. Qed.
 
 (* the hypotheses are satisfiable on non-trivial objects: eight words; a hasher in the middle of its
    second block (70 bytes absorbed: one block compressed, six bytes buffered) *)
